@@ -37,7 +37,9 @@ sources disagree are listed in `registry_conflicts` (name, glibc value, llvm val
 `registry`, so an inconsistency between registries can never be reported as a library defect.
 
 Exclusions (EXCLUDE below): names that are not codes assigned by a registry:
-  * `*_NUM` / `*NUM` counts (DT_NUM, R_X86_64_NUM, DT_PROCNUM = DT_MIPS_NUM is a per-machine count ...)
+  * `*_NUM` counts (DT_NUM, R_X86_64_NUM ...) and ELFCLASSNUM, ELFDATANUM, DT_VALNUM, DT_ADDRNUM,
+    DT_VERSIONTAGNUM, DT_EXTRANUM, DT_PROCNUM (= DT_MIPS_NUM, a per-machine count).  PN_XNUM,
+    DT_VERDEFNUM and DT_VERNEEDNUM ARE codes and are kept.
   * LLVM-internal helpers (DWARF_VERSION, DWARF_VENDOR_*, DW_*_invalid, DW_*_max ...)
 The generic LOOS/HIOS/LOPROC/HIPROC range markers are kept: both registries define them once and
 agree; per-machine range values would surface as an intra-source conflict and be dropped by the
@@ -52,7 +54,9 @@ VERIF = os.path.dirname(os.path.dirname(os.path.dirname(os.path.abspath(__file__
 REG = os.path.join(VERIF, 'registry')
 
 EXCLUDE = [
-    (re.compile(r'.*NUM$'), 'count of defined codes, not a code'),
+    (re.compile(r'.*_NUM$'), 'count of defined codes, not a code'),
+    (re.compile(r'^(ELFCLASSNUM|ELFDATANUM|DT_VALNUM|DT_ADDRNUM|DT_VERSIONTAGNUM|DT_EXTRANUM|DT_PROCNUM)$'),
+     'count of defined codes, not a code'),
     (re.compile(r'^DWARF_'), 'LLVM-internal constant'),
     (re.compile(r'^DW_\w+_(invalid|max)$'), 'LLVM-internal sentinel'),
     (re.compile(r'^DW_(PUBTYPES|PUBNAMES|ARANGES)_VERSION$'), 'LLVM-internal constant'),
@@ -471,23 +475,47 @@ def scrape_glibc():
     pp = PP(lambda spec, cur: None)
     pp.process(os.path.join(REG, 'glibc', 'elf.h'))
     defs, skipped = [], []
-    env = {}
+    # C expands macros where they are USED, so a replacement list may mention a macro defined
+    # further down (DT_PROCNUM -> DT_MIPS_NUM).  References are resolved through the final macro
+    # table; a referenced name with two different definitions is ambiguous and makes the value unknown.
+    bodies = {}
+    for name, params, body in pp.order:
+        if params is None:
+            bodies.setdefault(name, [])
+            if untokenize(body) not in [untokenize(b) for b in bodies[name]]:
+                bodies[name].append(body)
+    memo = {}
+
+    def value_of(name, busy=()):
+        if name in memo:
+            return memo[name]
+        if name in busy or name not in bodies or len(bodies[name]) != 1:
+            return None
+        memo[name] = v = fold(bodies[name][0], busy + (name,))
+        return v
+
+    def fold(body, busy):
+        if not body or any(k in ('str', 'chr') for k, _ in body):
+            return None
+        env = {}
+        for k, t in body:
+            if k == 'id':
+                env[t] = value_of(t, busy)
+        return eval_const(untokenize(body), env)
+
     for name, params, body in pp.order:
         if params is not None:
             skipped.append((name, 'function-like macro'))
-            continue
-        if not body:
+        elif not body:
             skipped.append((name, 'empty macro'))
-            continue
-        if any(k in ('str', 'chr') for k, _ in body):
+        elif any(k in ('str', 'chr') for k, _ in body):
             skipped.append((name, 'string/character valued'))
-            continue
-        val = eval_const(untokenize(body), env)
-        if val is None:
-            skipped.append((name, 'not a constant expression: ' + untokenize(body)))
-            continue
-        env[name] = val
-        defs.append((name, val))
+        else:
+            val = fold(body, (name,))
+            if val is None:
+                skipped.append((name, 'not a constant expression: ' + untokenize(body)))
+            else:
+                defs.append((name, val))
     return defs, skipped
 
 
